@@ -15,6 +15,7 @@ import traceback
 from concurrent.futures import ProcessPoolExecutor
 
 VERIF = os.path.dirname(os.path.dirname(os.path.abspath(__file__)))
+OUT = os.environ.get("VERIF_OUT", VERIF)      # evidence/ and replays/ of scratch-copy runs go elsewhere
 REPO_ROOT = os.environ.get("VERIF_REPO", "/repo")
 
 
@@ -107,7 +108,7 @@ def run_property(modname: str, tier: str = "quick", write_baseline=False) -> int
 
     known = [k for k in load_known() if k["property"] == prop]
     baseline = load_baseline(prop)
-    replay_dir = os.path.join(VERIF, "replays", prop)
+    replay_dir = os.path.join(OUT, "replays", prop)
     os.makedirs(replay_dir, exist_ok=True)
     for fn in os.listdir(replay_dir):
         os.unlink(os.path.join(replay_dir, fn))
@@ -175,6 +176,21 @@ def run_property(modname: str, tier: str = "quick", write_baseline=False) -> int
                 json.dump(payload, open(rfile, "w"), indent=1, default=str)
                 undecided.append(o)
 
+    # bounded / native stand-ins (real code, concrete scenarios): reported apart, never counted as discharged
+    native_results = []
+    for nname, nfn in getattr(m, "NATIVE", []):
+        try:
+            res = nfn()
+        except Exception as e:
+            res = {"ok": False, "observation": {"error": f"{type(e).__name__}: {e}", "trace": traceback.format_exc()[-600:]}}
+        native_results.append((nname, res))
+        if not res["ok"]:
+            rfile = os.path.join(replay_dir, _safe(nname) + ".json")
+            json.dump({"property": prop, "obligation": f"{prop}/{nname}", "kind": "bounded-native-scenario",
+                       "replay": res["observation"], "repo_root": REPO_ROOT}, open(rfile, "w"), indent=1, default=str)
+            o = Obligation(f"{prop}/{nname}", "bounded-native-scenario", "failed", "cpython", 0.0, "native", "scenario fails on the real code")
+            violations.append((o, rfile, ""))
+
     printed = set()
     for kf, o in known_hit:
         if kf["id"] in printed:
@@ -212,6 +228,15 @@ def run_property(modname: str, tier: str = "quick", write_baseline=False) -> int
 
     # ----------------------------------------------------------------------------------- evidence
     level = getattr(m, "LEVEL", "proof")
+    try:
+        man = json.load(open(os.path.join(VERIF, "MANIFEST.json")))
+        for chk in man.get("checks", []):
+            if chk["property_id"] == prop:
+                level = chk["level_claimed"]["category"]
+    except Exception:
+        pass
+    if level == "proof" and (kf_names or len(discharged_names) != len(names)):
+        level = "other"      # a proof-level record requires every obligation discharged
     backends = {}
     for o in inst:
         backends.setdefault(o.backend, [0, 0.0])
@@ -251,6 +276,7 @@ def run_property(modname: str, tier: str = "quick", write_baseline=False) -> int
                     "functions": len(reports)},
         "clauses": getattr(m, "CLAUSES", {}),
         "bounded": getattr(m, "BOUNDED", []) + [r.qualname for r in reports if r.bounded],
+        "bounded_native_scenarios": [{"name": n, "ok": r["ok"]} for n, r in native_results],
         "exhaustive": False,
         "evaluations": total_inst, "distinct_nontrivial": max(n_obl, 0),
         "rule": "one evaluation = one obligation instance (obligation x path); distinct = distinct obligation names",
@@ -258,8 +284,8 @@ def run_property(modname: str, tier: str = "quick", write_baseline=False) -> int
     ev = {"property_id": prop, "tier": tier, "seed": seed, "level": level, "coverage": cov,
           "assumptions": assumptions, "wall_s": round(time.time() - t0, 2),
           "violations": len(violations) + len(kf_names)}
-    os.makedirs(os.path.join(VERIF, "evidence"), exist_ok=True)
-    json.dump(ev, open(os.path.join(VERIF, "evidence", f"{prop}.json"), "w"), indent=1, default=str)
+    os.makedirs(os.path.join(OUT, "evidence"), exist_ok=True)
+    json.dump(ev, open(os.path.join(OUT, "evidence", f"{prop}.json"), "w"), indent=1, default=str)
 
     print(f"[{prop}] obligations={n_obl} discharged={n_dis} instances={total_inst} known-findings={len(printed)} "
           f"violations={len(violations)} undecided={len(undecided) + len(not_verifiable) + len(vacuous)} "
